@@ -128,6 +128,21 @@ func (r *refusal) Error() string {
 }
 func (r *refusal) Unwrap() error { return r.cause }
 
+type quotaError int
+
+func (q quotaError) Error() string { return fmt.Sprintf("c18: quota exceeded (%d left)", int(q)) }
+
+type forbidden struct{}
+
+func (forbidden) Error() string { return "c18: forbidden" }
+
+type codeError struct {
+	Code int
+	Text string
+}
+
+func (c codeError) Error() string { return fmt.Sprintf("c18: code %d %s", c.Code, c.Text) }
+
 type machine struct {
 	sh     *network.SimpleHTTPDef
 	api    *network.SimpleAPIDef
@@ -200,9 +215,13 @@ func newMachine(initial []int) *machine {
 			st.seen = append(st.seen, seen{me, req.Method, req.URL.String()})
 			req.Header.Add("X-I"+strconv.Itoa(id), strconv.Itoa(st.n))
 			if st.n-1 == st.failAt {
-				if (id+st.n)%2 == 0 {
+				switch (id + st.n) % 4 {
+				case 0:
 					st.returned = &refusal{Interceptor: id, Position: st.n - 1, cause: errTagged}
-				} else {
+				case 2:
+					// errors that are plain values, among them values that are the zero value of their type
+					st.returned = []error{quotaError(0), forbidden{}, quotaError(7), codeError{}}[(id+st.n/4)%4]
+				default:
 					st.returned = fmt.Errorf("interceptor %d at position %d: %w", id, st.n-1, errTagged)
 				}
 				return st.returned
@@ -485,8 +504,8 @@ func (m *machine) request(o op, suffix string) (res result) {
 			res.fail(key("transport-after-error"), "%v: interceptor at position %d failed but the transport was still called (%v)", o, o.FailAt, st.calls)
 			return
 		}
-		if !errors.Is(err, errTagged) {
-			res.fail(key("error-not-surfaced"), "%v: interceptor at position %d failed but the caller got Err=%v", o, o.FailAt, err)
+		if err == nil || (errors.Is(st.returned, errTagged) && !errors.Is(err, errTagged)) {
+			res.fail(key("error-not-surfaced"), "%v: interceptor at position %d failed (%v) but the caller got Err=%v", o, o.FailAt, st.returned, err)
 			return
 		}
 		var asRefusal *refusal
